@@ -49,6 +49,15 @@ theorem job_dirs_distinct (name₁ name₂ : Option Str) (tok₁ tok₂ : Str) (
 theorem job_dir_is_one_component (name : Option Str) (tok : Str) (h : '/' ∉ tok) : '/' ∉ jobDirname name tok :=
   jobDirname_no_slash name tok h
 
+/-- **renaming a job later does not move its files**: `j.name = …` after the job was created changes neither the resource table
+nor any job directory, so every path already baked into a command, and every upload / download location, stays what it was -/
+theorem rename_keeps_paths (st st' : St) (j : Nat) (name : Option Str) (h : step st (.rename j name) = .ok st') :
+    st' = st ∧ SameRes st st' := by
+  simp only [step] at h
+  split at h
+  · cases h; exact ⟨rfl, SameRes.refl _⟩
+  · cases h
+
 /-- the directory name stays within 251 characters: only the name part is cut -/
 theorem job_dir_length (name tok : Str) :
     (jobDirname (some name) tok).length = min (250 - tok.length) name.length + 1 + tok.length := by
